@@ -774,6 +774,19 @@ fn run_c01(case: &RtCase) -> Outcome {
                 }
             }
             RStep::DropRuntime => {
+                // known finding C01/leaked-op/pool-job-outlived-driver (judged by the driver lab): let
+                // thread-pool jobs finish before the runtime goes away
+                {
+                    let open = |ev: &[Event]| ev.iter().filter(|e| matches!(e, Event::Submit { path: SubmitPath::Blocking, .. })).count() as i64 - ev.iter().filter(|e| matches!(e, Event::PoolDone { .. })).count() as i64;
+                    if open(&HOOKS.lock().unwrap_or_else(|p| p.into_inner())) > 0 {
+                        lab.gate.store(true, Ordering::SeqCst);
+                        let t0 = Instant::now();
+                        while open(&HOOKS.lock().unwrap_or_else(|p| p.into_inner())) > 0 && t0.elapsed() < Duration::from_secs(20) {
+                            std::thread::sleep(Duration::from_millis(1));
+                        }
+                        labels.push("excluded-known:pool-job-drained-before-runtime-drop".into());
+                    }
+                }
                 if in_flight {
                     labels.push("runtime-drop-in-flight".into());
                     nontrivial = true;
